@@ -726,13 +726,18 @@ def nontrivial(c, r):
 
 
 def run(rep, tier, rng):
-    vplib.proof_stage(rep, "Props/C16.v", extra_targets=["Policy/Run.vo"], translators=())
+    # Props/C16.v now reaches Core/{Bounds,Limits,Machine,ExecCorrect}.v (the Bit Machine link), which depend on the
+    # regenerated constants of Generated/Consts.v
+    vplib.proof_stage(rep, "Props/C16.v", extra_targets=["Policy/Run.vo"], translators=("xlate_consts.py",))
     rep.coverage["trusted_base"] = vplib.GENERIC_TRUSTED + [
         "models Policy/{PolicyAst,Sort,Compile,Satisfy,Sem,Cost}.v written by hand from policy/{ast,serialize,satisfy}.rs, "
         "node/hiding.rs, merkle/cmr.rs (ConstructibleCmr), analysis.rs (cost), redeem.rs (prune)",
         "hash idealised: theorems hold for any tagged hash (Section variable); the executable model uses the free hash, so only "
         "root *equalities* are compared with the implementation",
         "jets: eq/add/verify by specification; sig_all_hash, bip_0340_verify, lock jets, sha_256_ctx_8 as an oracle constrained by `truthful`",
+        "link to the Bit Machine (Policy/Bridge*.v): translation of the satisfier's programs into Core/Term.v terms, agreement of the "
+        "mini-semantics with Core/Sem.v under the hypothesis that the machine-level jets compute the encoding of what the policy-level "
+        "oracle computes (jets_agree), then C05's exec theorem; bit layouts of signatures/preimages/sighash/contexts are parameters",
         "type inference inside the node constructors is not modelled (policy fragments are 1 -> 1); IHR identity idealised as "
         "identity of the subterm with its witness data; slice::sort / sort_by_key modelled as stable insertion sort",
         "python: secp256k1 point multiplication and hashlib.sha256 for the key/hash tables (checked against the harness on every run)",
